@@ -16,6 +16,12 @@
   `Layout`, `render`, `WF`).  `parseText cfg ign text` = `Parser{IgnoreIdenticalAttributes: ign}.Parse`
   on a single text; its value is `(none, ⟨dictionary, _⟩)` or `(some failure, _)`.
 
+  EXACTNESS (section "EXACTLY the language"): RV.Model.DictGrammar is a grammar of the language that
+  does not call the parser; `accepts_exactly` : `parseText Cfg.repaired ign text = (none, ⟨d, []⟩) ↔
+  Accepts ign text d`, built from the token-level (L1) and line-level (L2) equivalences.  The older
+  `parse_render` is the direction "every rendering of a well-formed abstract dictionary is accepted";
+  `render_accepted` ties the two specifications together.
+
   Hypotheses that delimit the theorems (the code's behaviour outside is modelled and compared with
   the Go code by the correspondence run, see DESIGN §5 C16): names are non-empty strings of bytes
   that are neither white space nor `#` (`tokenOK`); OID components < 2⁶³, sizes / encrypt values /
@@ -23,9 +29,12 @@
   bufio's 64 KiB token limit.
 -/
 import RV.Model.DictSpec
+import RV.Model.DictGrammar
 import RV.Proofs.DictParser
+import RV.Proofs.DictLines
+import RV.Proofs.DictReject
 namespace RV.C16
-open RV RV.Dict RV.DictParser RV.DictParser.Lex RV.DictParser.Spec
+open RV RV.Dict RV.DictParser RV.DictParser.Lex RV.DictParser.Spec RV.DictParser.Grammar
 
 /-! ### Lexer -/
 
@@ -46,6 +55,11 @@ theorem fields_whitespace_only (w : Bytes) (hw : blanks w = true) : fields w = [
 theorem comment_stripped (l : Bytes) (c : Option Bytes) (h : l.all (· != 35) = true) :
     stripComment (l ++ commentPart c) = l :=
   DictParser.stripComment_commentPart l c h
+
+/-- … as a specification: the result is the longest prefix without `#` -/
+theorem comment_rule (l p : Bytes) :
+    stripComment l = p ↔ (∀ b ∈ p, b ≠ 35) ∧ (l = p ∨ ∃ c, l = p ++ 35 :: c) :=
+  stripComment_iff l p
 
 /-- bufio.ScanLines delivers exactly the physical lines of a text, for LF and CRLF terminators and
     with or without a terminator on the last line -/
@@ -130,6 +144,161 @@ theorem toDictionary_vendors (ad : AD) :
       | .vendor v => some (v.name, v.number)
       | _ => none :=
   toDictionary_vendors' ad
+
+/-! ### EXACTLY the language.
+    RV.Model.DictGrammar writes the language down as a grammar that does not call the parser:
+    token predicates (`Decimal`, `Int32Lit`, `ValueNumber`, `DottedNumber`, `FoldsTo`, `TypeTok`,
+    `FlagItem`, `FlagField`, `FormatTok`), line rules with their context conditions (`LineDecl`: name new
+    in the scope unless IgnoreIdenticalAttributes and identical; vendor name and number new; BEGIN-VENDOR
+    of a declared vendor with no block open; END-VENDOR of the open block), texts (`LinesDecl`,
+    `Accepts`: every line blank or a valid declaration, no line over the scanner limit, no block open at
+    the end).  Three layers, all proved as equivalences:
+      L1  each token parser accepts exactly its token language and returns the value the grammar assigns;
+      L2  the directive switch lets a line pass exactly when `LineDecl` holds, with that state change;
+      L3  `Parse` succeeds on a text exactly when `Accepts` holds, with that dictionary.
+    The lexer (`Lex.lines`, `Lex.stripComment`, `Lex.fields`) is shared by both sides in L3; it has its
+    own theorems above (`fields_join`, `comment_stripped`, `lines_of_text`). `$INCLUDE` is outside
+    `Accepts` (C15): on a single text the opener knows no file, so such a line is refused. -/
+
+/-! #### L1: tokens -/
+
+/-- `strconv.ParseUint(s, 10, 32)`: non-empty digit strings below 2³², positional value -/
+theorem token_decimal (s : Bytes) (n : Nat) : parseUint32Dec s = some n ↔ Decimal s ∧ decValue s = n ∧ n < 2 ^ 32 :=
+  parseUint32Dec_iff s n
+
+/-- `strconv.ParseUint(s, 16, 32)`: non-empty strings of `0-9a-fA-F` below 2³² -/
+theorem token_hexadecimal (s : Bytes) (n : Nat) : parseUint32Hex s = some n ↔ Hexadecimal s ∧ hexValue s = n ∧ n < 2 ^ 32 :=
+  parseUint32Hex_iff s n
+
+/-- `strconv.ParseInt(s, 10, 32)` (vendor numbers, `encrypt=`, `octets[n]`): optional sign, digits, 32-bit range -/
+theorem token_int32 (s : Bytes) (n : Int) : parseInt32 s = some n ↔ Int32Lit s n :=
+  parseInt32_iff s n
+
+/-- dotted numbers (fix #13: every component fits Go's int) -/
+theorem token_oid (cfg : Cfg) (h13 : cfg.oidOverflowRejected = true) (s : Bytes) (o : List Int) :
+    parseOID cfg s = some o ↔ ∃ comps, DottedNumber s comps ∧ (∀ c ∈ comps, decValue c < 2 ^ 63) ∧ o = oidOf comps :=
+  parseOID_iff cfg h13 s o
+
+/-- … in every configuration the syntax accepted is that of a dotted number -/
+theorem token_oid_syntax (cfg : Cfg) (s : Bytes) (o : List Int) (h : parseOID cfg s = some o) : ∃ comps, DottedNumber s comps :=
+  parseOID_dotted cfg s o h
+
+/-- `strings.EqualFold` against the parser's lower-case constants -/
+theorem token_fold (s t : Bytes) : foldEq s t = true ↔ FoldsTo s t := foldEq_iff s t
+
+/-- type names in any letter case, and `octets[n]` -/
+theorem token_type (t : Bytes) (ty : AttrType) (size : Option Int) : parseType t = .ok (ty, size) ↔ TypeTok t ty size :=
+  parseType_iff t ty size
+
+/-- the flag field: items separated by commas … -/
+theorem token_flag_field (s : Bytes) (items : List Bytes) : splitComma s = items ↔ FlagField s items := splitComma_iff s items
+
+/-- … each `has_tag`, `concat` or `encrypt=`+literal, no kind twice -/
+theorem token_flags (items : List Bytes) (a a' : Attribute) :
+    parseFlags items a = .ok a' ↔ ∃ fl, FlagItems items fl ∧ FlagsOnce a fl ∧ a' = fl.foldl applyFlag a :=
+  parseFlags_iff items a a'
+
+/-- (fix #12) `format=t,l` -/
+theorem token_format (cfg : Cfg) (h12 : cfg.formatLenChecked = true) (f : Bytes) : formatOK cfg f = true ↔ ∃ t l, FormatTok f t l :=
+  formatOK_iff cfg h12 f
+
+/-- the arguments of ATTRIBUTE, VALUE, VENDOR -/
+theorem attribute_args (cfg : Cfg) (h13 : cfg.oidOverflowRejected = true) (name oid typ : Bytes) (flags : Option Bytes) (a : Attribute) :
+    parseAttribute cfg name oid typ flags = .ok a ↔ AttrArgs name oid typ flags a :=
+  parseAttribute_iff cfg h13 name oid typ flags a
+
+theorem value_args (attr name num : Bytes) (v : Value) : parseValue attr name num = .ok v ↔ ValueArgs attr name num v :=
+  parseValue_iff attr name num v
+
+theorem vendor_args (cfg : Cfg) (h12 : cfg.formatLenChecked = true) (name num : Bytes) (fmt : Option Bytes) (v : Vendor) :
+    parseVendor cfg name num fmt = .ok v ↔ VendorArgs name num fmt v :=
+  parseVendor_iff cfg h12 name num fmt v
+
+/-! #### L2: lines -/
+
+/-- the directive switch lets the fields of a line pass, with this change of (vendor block, dictionary),
+    iff the line is a declaration of the grammar valid where it stands — or a `$INCLUDE` outside a
+    vendor block that the include handler ran successfully (C15) -/
+theorem line_accepted_iff (cfg : Cfg) (h12 : cfg.formatLenChecked = true) (h13 : cfg.oidOverflowRejected = true)
+    (ign : Bool) (inc : IncludeHandler) (file : Bytes) (lineNo : Nat) (vb : Option Bytes) (st : St)
+    (fields : List Bytes) (vb' : Option Bytes) (st' : St) :
+    dispatch cfg ign inc file lineNo vb st fields = .next vb' st' ↔
+      (LineDecl ign (vb, st.dict) fields (vb', st'.dict) ∧ st'.log = st.log) ∨
+      (∃ n, fields = [kwINCLUDE, n] ∧ vb = none ∧ vb' = none ∧ inc n file lineNo st = (none, st')) :=
+  dispatch_next_iff cfg h12 h13 ign inc file lineNo vb st fields vb' st'
+
+/-- every other line is refused with a ParseError at this line -/
+theorem line_refused (cfg : Cfg) (h12 : cfg.formatLenChecked = true) (h13 : cfg.oidOverflowRejected = true)
+    (ign : Bool) (inc : IncludeHandler) (file : Bytes) (lineNo : Nat) (vb : Option Bytes) (st : St) (fields : List Bytes)
+    (hno : ∀ s', ¬ LineDecl ign (vb, st.dict) fields s') (hinc : ∀ n, fields = [kwINCLUDE, n] → vb ≠ none) :
+    ∃ c, dispatch cfg ign inc file lineNo vb st fields = .fail (.decl c file lineNo) st :=
+  dispatch_fail_of_not_decl cfg h12 h13 ign inc file lineNo vb st fields hno hinc
+
+/-- the field counts the switch lets through; everything else is UnknownLineError -/
+theorem line_shape (cfg : Cfg) (ign : Bool) (inc : IncludeHandler) (file : Bytes) (lineNo : Nat) (vb : Option Bytes) (st : St)
+    (fields : List Bytes) (h : shapeOK fields = false) :
+    dispatch cfg ign inc file lineNo vb st fields = .fail (.decl .unknownLine file lineNo) st :=
+  dispatch_unknown cfg ign inc file lineNo vb st fields h
+
+/-! #### L3: texts -/
+
+/-- EXACTNESS: the repaired parser succeeds on a text, returning `d`, iff the text is a text of the
+    language that declares `d` -/
+theorem accepts_exactly (ign : Bool) (text : Bytes) (d : Dictionary) :
+    parseText Cfg.repaired ign text = (none, { dict := d, log := [] }) ↔ Accepts ign text d := by
+  rw [parseText_ok_iff Cfg.repaired rfl rfl rfl ign text]
+  simp
+
+/-- … for every variant of the code that has the fixes #11 #12 #13, and any final state -/
+theorem accepts_exactly_any (cfg : Cfg) (h11 : cfg.skipNoFields = true) (h12 : cfg.formatLenChecked = true)
+    (h13 : cfg.oidOverflowRejected = true) (ign : Bool) (text : Bytes) (st : St) :
+    parseText cfg ign text = (none, st) ↔ Accepts ign text st.dict ∧ st.log = [] :=
+  parseText_ok_iff cfg h11 h12 h13 ign text st
+
+/-- … in terms of the value `Parse` returns -/
+theorem outcome_ok_iff (ign : Bool) (text : Bytes) (d : Dictionary) :
+    outcome (parseText Cfg.repaired ign text) = .ok d ↔ Accepts ign text d := by
+  rcases hr : parseText Cfg.repaired ign text with ⟨_ | e, st⟩
+  · have := (parseText_ok_iff Cfg.repaired rfl rfl rfl ign text st).mp hr
+    simp only [outcome, Except.ok.injEq]
+    constructor
+    · rintro rfl; exact this.1
+    · intro h
+      have h2 := (accepts_exactly ign text d).mpr h
+      rw [hr] at h2
+      injection h2 with _ h3
+      rw [h3]
+  · simp only [outcome, reduceCtorEq, false_iff]
+    intro h
+    have h2 := (accepts_exactly ign text d).mpr h
+    rw [hr] at h2
+    cases h2
+
+/-- the language assigns one dictionary to a text -/
+theorem accepted_dictionary_unique (ign : Bool) (text : Bytes) (d₁ d₂ : Dictionary)
+    (h₁ : Accepts ign text d₁) (h₂ : Accepts ign text d₂) : d₁ = d₂ := by
+  have e₁ := (accepts_exactly ign text d₁).mpr h₁
+  have e₂ := (accepts_exactly ign text d₂).mpr h₂
+  rw [e₁] at e₂
+  injection e₂ with _ h
+  injection h
+
+/-- a text with a line of 64 KiB or more is not in the language (bufio.ErrTooLong) -/
+theorem long_line_not_accepted (ign : Bool) (text : Bytes) (d : Dictionary) (h : (Lex.lines text).2 = true) :
+    ¬ Accepts ign text d := by
+  rintro ⟨h1, _⟩; rw [h] at h1; cases h1
+
+/-- the two specifications agree: every rendering of a well-formed abstract dictionary is a text of
+    the language, declaring the dictionary the abstract dictionary denotes -/
+theorem render_accepted (ign : Bool) (ℓ : Layout) (ad : AD) (hwf : WF ad) (hlay : LayoutOK ℓ ad) :
+    Accepts ign (render ℓ ad) (toDictionary ad) :=
+  (accepts_exactly ign _ _).mp (parse_render ign ℓ ad hwf hlay)
+
+/-- declarations are only ever appended: along an accepted text the top-level attribute and value
+    lists and the vendor list (names, numbers) only grow at the end, in line order -/
+theorem declarations_append_only (ign : Bool) (s s' : LState) (lines : List (List Bytes)) (h : LinesDecl ign s lines s') :
+    Extends s.2 s'.2 :=
+  linesDecl_extends h
 
 /-! ### Rejections: one theorem per fault class, with the error class and the 1-based line.
     Shape: `ls` are the well-formed declaration lines before the fault (`GoodPrefix`), laid out by `ℓ`;
@@ -362,6 +531,146 @@ theorem bad_vendor_format (cfg : Cfg) (h12 : cfg.formatLenChecked = true) (ign :
     (fun inc file lineNo st _ => dispatch_vendor_err cfg ign inc file lineNo _ st n _ (some f) _
       (parseVendor_bad_format cfg h12 n num f hnum hbad))
 
+/-! ### Rejections asked for by the audit: `encrypt=` values, `octets[n]`, field counts, keywords -/
+
+/-- `encrypt=` followed by something that is no signed 32-bit decimal literal (non-numeric, empty,
+    out of range), after the well-formed flags of `a`, none of which is an `encrypt=` -/
+theorem bad_encrypt_value (cfg : Cfg) (ign : Bool) (ℓ : Layout) (ls : List ALine) (ll : LineLayout) (a : AAttr) (bad R : Bytes)
+    (more : List Bytes) (hp : GoodPrefix cfg ℓ ls) (hll : ll.ok = true) (ha : a.ok = true)
+    (hfield : tokenOK (Spec.intercalate 44 (a.flags.map flagToken ++ (kwEncrypt ++ bad) :: more)) = true)
+    (hcomma : ∀ t ∈ (kwEncrypt ++ bad) :: more, t.all (· != 44) = true)
+    (hshort : (ll.content [kwATTRIBUTE, a.name, showOID a.oid, typeToken ll.caseMask a,
+        Spec.intercalate 44 (a.flags.map flagToken ++ (kwEncrypt ++ bad) :: more)]).length + 1 < maxTokenSize)
+    (hfirst : a.toAttribute.encrypt = none) (hbad : ∀ n, ¬ Int32Lit bad n) :
+    (parseText cfg ign (textOfLines ℓ ls ++ ll.content [kwATTRIBUTE, a.name, showOID a.oid, typeToken ll.caseMask a,
+        Spec.intercalate 44 (a.flags.map flagToken ++ (kwEncrypt ++ bad) :: more)] ++ 10 :: R)).1
+      = some (.decl .invalidAttributeEncryptType [] (faultLine ℓ ls)) :=
+  reject_line cfg ign ℓ ls ll _ R _ hp hll (by simp) (attrLine_tokens_ok ll.caseMask a _ ha hfield) hshort
+    (fun inc file lineNo st _ => dispatch_attr_err cfg ign inc file lineNo _ st _ _ _ (some _) _
+      (by rw [parseAttribute_flags cfg _ a _ ha (by simp) hcomma]; exact parseFlags_bad_encrypt bad more _ hfirst hbad))
+
+/-- the two cases the audit names: a byte that is neither digit nor sign … -/
+theorem non_numeric_is_no_int32 (s : Bytes) (h : ∃ b ∈ s, isDigit b = false ∧ b ≠ 43 ∧ b ≠ 45) : ∀ n, ¬ Int32Lit s n :=
+  not_int32Lit_of_nondigit s h
+
+/-- … and a number outside −2³¹ … 2³¹−1 -/
+theorem out_of_range_is_no_int32 (v : Nat) :
+    (2 ^ 31 ≤ v → ∀ n, ¬ Int32Lit (showDec v) n) ∧ (2 ^ 31 < v → ∀ n, ¬ Int32Lit (45 :: showDec v) n) :=
+  ⟨not_int32Lit_of_big v, not_int32Lit_of_small v⟩
+
+/-- a type token that begins with `octets[` (any letter case) but is not `octets[` + signed 32-bit
+    literal + `]`: the closing bracket is missing, or the size is empty, non-numeric or out of range -/
+theorem malformed_octets_size (cfg : Cfg) (ign : Bool) (ℓ : Layout) (ls : List ALine) (ll : LineLayout) (name r R : Bytes)
+    (oid : List Nat) (fl : Option Bytes) (hp : GoodPrefix cfg ℓ ls) (hll : ll.ok = true)
+    (hname : tokenOK name = true) (hty : tokenOK (applyCase ll.caseMask kwOctetsBr ++ r) = true)
+    (hfl : ∀ x ∈ fl.toList, tokenOK x = true) (hoid : oid ≠ [] ∧ ∀ c ∈ oid, c < 2 ^ 63)
+    (hshort : (ll.content ([kwATTRIBUTE, name, showOID oid, applyCase ll.caseMask kwOctetsBr ++ r] ++ fl.toList)).length + 1
+        < maxTokenSize)
+    (hbad : ∀ lit n, r = lit ++ [93] → ¬ Int32Lit lit n) :
+    (parseText cfg ign (textOfLines ℓ ls ++
+        ll.content ([kwATTRIBUTE, name, showOID oid, applyCase ll.caseMask kwOctetsBr ++ r] ++ fl.toList) ++ 10 :: R)).1
+      = some (.decl .unknownAttributeType [] (faultLine ℓ ls)) :=
+  reject_line cfg ign ℓ ls ll _ R _ hp hll (by simp)
+    (by
+      intro t ht
+      simp only [List.mem_append, List.mem_cons, List.not_mem_nil, or_false] at ht
+      rcases ht with (rfl | rfl | rfl | rfl) | ht
+      · decide
+      · exact hname
+      · exact tokenOK_showOID _ hoid.1
+      · exact hty
+      · exact hfl t ht)
+    hshort
+    (fun inc file lineNo st _ => dispatch_attr_err cfg ign inc file lineNo _ st name _ _ fl _
+      (by simp [parseAttribute, parseOID_showOID cfg oid hoid.1 hoid.2, parseType_octetsBr_error ll.caseMask r hbad]))
+
+/-- the missing bracket: what follows `octets[` does not end in `]` -/
+theorem missing_bracket_is_malformed (r : Bytes) (h : r.getLast? ≠ some 93) : ∀ lit n, r = lit ++ [93] → ¬ Int32Lit lit n := by
+  intro lit n hr
+  rw [hr] at h
+  simp at h
+
+/-- the non-numeric (or empty, or out-of-range) size -/
+theorem bad_size_is_malformed (lit : Bytes) (h : ∀ n, ¬ Int32Lit lit n) : ∀ lit' n, lit ++ [93] = lit' ++ [93] → ¬ Int32Lit lit' n := by
+  intro lit' n hr
+  have : lit = lit' := List.append_cancel_right hr
+  rw [← this]; exact h n
+
+/-- WRONG FIELD COUNTS: a line whose first field is a keyword but whose number of fields is not one the
+    directive takes is an UnknownLineError (the `default:` of the switch). -/
+theorem wrong_field_count (cfg : Cfg) (ign : Bool) (ℓ : Layout) (ls : List ALine) (ll : LineLayout) (kw : Bytes)
+    (args : List Bytes) (R : Bytes) (hp : GoodPrefix cfg ℓ ls) (hll : ll.ok = true) (hkw : tokenOK kw = true)
+    (hargs : ∀ t ∈ args, tokenOK t = true) (hshort : (ll.content (kw :: args)).length + 1 < maxTokenSize)
+    (hshape : shapeOK (kw :: args) = false) :
+    (parseText cfg ign (textOfLines ℓ ls ++ ll.content (kw :: args) ++ 10 :: R)).1
+      = some (.decl .unknownLine [] (faultLine ℓ ls)) :=
+  reject_line cfg ign ℓ ls ll _ R _ hp hll (by simp)
+    (by
+      intro t ht
+      rcases List.mem_cons.mp ht with rfl | ht
+      · exact hkw
+      · exact hargs t ht)
+    hshort
+    (fun inc file lineNo st _ => dispatch_unknown cfg ign inc file lineNo _ st _ hshape)
+
+/-- ATTRIBUTE takes 3 or 4 arguments -/
+theorem attribute_wrong_field_count (cfg : Cfg) (ign : Bool) (ℓ : Layout) (ls : List ALine) (ll : LineLayout) (args : List Bytes)
+    (R : Bytes) (hp : GoodPrefix cfg ℓ ls) (hll : ll.ok = true) (hargs : ∀ t ∈ args, tokenOK t = true)
+    (hshort : (ll.content (kwATTRIBUTE :: args)).length + 1 < maxTokenSize) (hcount : args.length ≠ 3 ∧ args.length ≠ 4) :
+    (parseText cfg ign (textOfLines ℓ ls ++ ll.content (kwATTRIBUTE :: args) ++ 10 :: R)).1
+      = some (.decl .unknownLine [] (faultLine ℓ ls)) :=
+  wrong_field_count cfg ign ℓ ls ll _ args R hp hll (by decide) hargs hshort (by rw [shapeOK_attribute]; simp [hcount.1, hcount.2])
+
+/-- VALUE takes 3 arguments -/
+theorem value_wrong_field_count (cfg : Cfg) (ign : Bool) (ℓ : Layout) (ls : List ALine) (ll : LineLayout) (args : List Bytes)
+    (R : Bytes) (hp : GoodPrefix cfg ℓ ls) (hll : ll.ok = true) (hargs : ∀ t ∈ args, tokenOK t = true)
+    (hshort : (ll.content (kwVALUE :: args)).length + 1 < maxTokenSize) (hcount : args.length ≠ 3) :
+    (parseText cfg ign (textOfLines ℓ ls ++ ll.content (kwVALUE :: args) ++ 10 :: R)).1
+      = some (.decl .unknownLine [] (faultLine ℓ ls)) :=
+  wrong_field_count cfg ign ℓ ls ll _ args R hp hll (by decide) hargs hshort (by rw [shapeOK_value]; simp [hcount])
+
+/-- VENDOR takes 2 or 3 arguments -/
+theorem vendor_wrong_field_count (cfg : Cfg) (ign : Bool) (ℓ : Layout) (ls : List ALine) (ll : LineLayout) (args : List Bytes)
+    (R : Bytes) (hp : GoodPrefix cfg ℓ ls) (hll : ll.ok = true) (hargs : ∀ t ∈ args, tokenOK t = true)
+    (hshort : (ll.content (kwVENDOR :: args)).length + 1 < maxTokenSize) (hcount : args.length ≠ 2 ∧ args.length ≠ 3) :
+    (parseText cfg ign (textOfLines ℓ ls ++ ll.content (kwVENDOR :: args) ++ 10 :: R)).1
+      = some (.decl .unknownLine [] (faultLine ℓ ls)) :=
+  wrong_field_count cfg ign ℓ ls ll _ args R hp hll (by decide) hargs hshort (by rw [shapeOK_vendor]; simp [hcount.1, hcount.2])
+
+/-- BEGIN-VENDOR takes 1 argument -/
+theorem begin_vendor_wrong_field_count (cfg : Cfg) (ign : Bool) (ℓ : Layout) (ls : List ALine) (ll : LineLayout) (args : List Bytes)
+    (R : Bytes) (hp : GoodPrefix cfg ℓ ls) (hll : ll.ok = true) (hargs : ∀ t ∈ args, tokenOK t = true)
+    (hshort : (ll.content (kwBEGIN :: args)).length + 1 < maxTokenSize) (hcount : args.length ≠ 1) :
+    (parseText cfg ign (textOfLines ℓ ls ++ ll.content (kwBEGIN :: args) ++ 10 :: R)).1
+      = some (.decl .unknownLine [] (faultLine ℓ ls)) :=
+  wrong_field_count cfg ign ℓ ls ll _ args R hp hll (by decide) hargs hshort (by rw [shapeOK_begin]; simp [hcount])
+
+/-- END-VENDOR takes 1 argument -/
+theorem end_vendor_wrong_field_count (cfg : Cfg) (ign : Bool) (ℓ : Layout) (ls : List ALine) (ll : LineLayout) (args : List Bytes)
+    (R : Bytes) (hp : GoodPrefix cfg ℓ ls) (hll : ll.ok = true) (hargs : ∀ t ∈ args, tokenOK t = true)
+    (hshort : (ll.content (kwEND :: args)).length + 1 < maxTokenSize) (hcount : args.length ≠ 1) :
+    (parseText cfg ign (textOfLines ℓ ls ++ ll.content (kwEND :: args) ++ 10 :: R)).1
+      = some (.decl .unknownLine [] (faultLine ℓ ls)) :=
+  wrong_field_count cfg ign ℓ ls ll _ args R hp hll (by decide) hargs hshort (by rw [shapeOK_end]; simp [hcount])
+
+/-- $INCLUDE takes 1 argument -/
+theorem include_wrong_field_count (cfg : Cfg) (ign : Bool) (ℓ : Layout) (ls : List ALine) (ll : LineLayout) (args : List Bytes)
+    (R : Bytes) (hp : GoodPrefix cfg ℓ ls) (hll : ll.ok = true) (hargs : ∀ t ∈ args, tokenOK t = true)
+    (hshort : (ll.content (kwINCLUDE :: args)).length + 1 < maxTokenSize) (hcount : args.length ≠ 1) :
+    (parseText cfg ign (textOfLines ℓ ls ++ ll.content (kwINCLUDE :: args) ++ 10 :: R)).1
+      = some (.decl .unknownLine [] (faultLine ℓ ls)) :=
+  wrong_field_count cfg ign ℓ ls ll _ args R hp hll (by decide) hargs hshort (by rw [shapeOK_include']; simp [hcount])
+
+/-- a first field that is none of the six keywords (keywords are case-sensitive: `attribute` is none) -/
+theorem unknown_keyword (cfg : Cfg) (ign : Bool) (ℓ : Layout) (ls : List ALine) (ll : LineLayout) (kw : Bytes) (args : List Bytes)
+    (R : Bytes) (hp : GoodPrefix cfg ℓ ls) (hll : ll.ok = true) (hkw : tokenOK kw = true) (hargs : ∀ t ∈ args, tokenOK t = true)
+    (hshort : (ll.content (kw :: args)).length + 1 < maxTokenSize)
+    (hno : kw ≠ kwATTRIBUTE ∧ kw ≠ kwVALUE ∧ kw ≠ kwVENDOR ∧ kw ≠ kwBEGIN ∧ kw ≠ kwEND ∧ kw ≠ kwINCLUDE) :
+    (parseText cfg ign (textOfLines ℓ ls ++ ll.content (kw :: args) ++ 10 :: R)).1
+      = some (.decl .unknownLine [] (faultLine ℓ ls)) :=
+  wrong_field_count cfg ign ℓ ls ll kw args R hp hll hkw hargs hshort
+    (shapeOK_unknown_keyword kw args hno.1 hno.2.1 hno.2.2.1 hno.2.2.2.1 hno.2.2.2.2.1 hno.2.2.2.2.2)
+
 /-! ### History: the code as found (`Cfg.current`), before the fixes #11 #12 #13 -/
 
 /-- defect #11: with the code as found the full statement is false … -/
@@ -430,5 +739,109 @@ example : isFormatToken (kwFormat ++ [52, 44, 48]) := ⟨4, 0, by simp, by simp,
 example : ¬ isFormatToken (kwFormat ++ [49, 44, 57]) := by
   rintro ⟨t, l, ht, hl, h⟩
   rcases ht with rfl | rfl | rfl <;> rcases hl with rfl | rfl | rfl <;> revert h <;> decide
+
+
+/-! #### the exactness theorems and the new rejection theorems -/
+
+/-- `VENDOR Acme 99 format=2,1` / blank / `BEGIN-VENDOR Acme` / `ATTRIBUTE X 1.2 OcTeTs[+16] encrypt=-1,has_tag`
+    / `VALUE X y 0x1F # c` / `END-VENDOR Acme`, CRLF on one line, no final newline -/
+def sampleText : Bytes :=
+  bs "VENDOR Acme 99 format=2,1\n \t\nBEGIN-VENDOR Acme\r\nATTRIBUTE X 1.2 OcTeTs[+16] encrypt=-1,has_tag\nVALUE X y 0x1F # c\nEND-VENDOR Acme"
+
+def sampleDict : Dictionary :=
+  { vendors := [{ name := bs "Acme", number := 99, typeOctets := some 2, lengthOctets := some 1,
+                  attributes := [{ name := [88], oid := [1, 2], typ := .octets, size := some 16, encrypt := some (-1),
+                                   hasTag := some true }],
+                  values := [{ attrName := [88], name := [121], number := 31 }] }] }
+
+/-- the code with the fixes #11 #12 #13 but the include rule as found: its `parseText` is defined by
+    structural recursion (fuel), so the kernel can evaluate it; `Accepts` does not depend on the
+    configuration -/
+def cfgEval : Cfg := ⟨true, true, true, false⟩
+
+set_option maxRecDepth 20000 in
+/-- a text of the language (membership obtained through the exactness theorem, the parse by evaluation) -/
+example : Accepts false sampleText sampleDict :=
+  ((accepts_exactly_any cfgEval rfl rfl rfl false sampleText { dict := sampleDict, log := [] }).mp (by decide +kernel)).1
+
+set_option maxRecDepth 20000 in
+/-- … hence the repaired parser returns exactly that dictionary on it -/
+example : parseText Cfg.repaired false sampleText = (none, { dict := sampleDict, log := [] }) :=
+  (accepts_exactly false sampleText sampleDict).mpr
+    ((accepts_exactly_any cfgEval rfl rfl rfl false sampleText { dict := sampleDict, log := [] }).mp (by decide +kernel)).1
+
+set_option maxRecDepth 20000 in
+/-- a text that is not in the language (`encrypt=` without a number), for every dictionary -/
+example (d : Dictionary) : ¬ Accepts false (bs "ATTRIBUTE x 1 string encrypt=\n") d := by
+  intro h
+  have h1 := (accepts_exactly_any cfgEval rfl rfl rfl false _ { dict := d, log := [] }).mpr ⟨h, rfl⟩
+  have h2 : (parseText cfgEval false (bs "ATTRIBUTE x 1 string encrypt=\n")).1
+      = some (.decl .invalidAttributeEncryptType [] 1) := by decide +kernel
+  rw [h1] at h2
+  cases h2
+
+set_option maxRecDepth 20000 in
+/-- what the language does NOT forbid (parser.go checks attribute NAMES only, lines 87-104): two
+    attributes of one scope with the same OID are both declared -/
+example : Accepts false (bs "ATTRIBUTE a 1 string\nATTRIBUTE b 1 string\n")
+    { attributes := [{ name := [97], oid := [1], typ := .string }, { name := [98], oid := [1], typ := .string }] } :=
+  ((accepts_exactly_any cfgEval rfl rfl rfl false _ { dict := _, log := [] }).mp (by decide +kernel)).1
+
+/-- the grammar itself, without the parser: `ATTRIBUTE x 1.02 StRiNg has_tag` at top level -/
+example : LineDecl false (none, {}) [kwATTRIBUTE, [120], [49, 46, 48, 50], [83, 116, 82, 105, 78, 103], kwHasTag]
+    (none, { attributes := [{ name := [120], oid := [1, 2], typ := .string, hasTag := some true }] }) :=
+  LineDecl.attr [120] [49, 46, 48, 50] [83, 116, 82, 105, 78, 103] (some kwHasTag) _
+    ⟨[[49], [48, 50]], .string, none, [.hasTag], ⟨by decide, by decide, rfl⟩, by decide,
+      Or.inl ⟨rfl, .upper 83 (by decide) (by decide) (.same 116 (.upper 82 (by decide) (by decide) (.same 105
+        (.upper 78 (by decide) (by decide) (.same 103 .nil)))))⟩,
+      ⟨[kwHasTag], ⟨by decide, by decide, rfl⟩, .cons .hasTag .nil⟩, (by unfold FlagsOnce; decide), rfl⟩
+    rfl
+
+theorem goodPrefix_nil (cfg : Cfg) : GoodPrefix cfg {} [] :=
+  ⟨by decide, by decide, by decide, Or.inr (by decide)⟩
+
+theorem showOID_one : showOID [1] = [49] := by
+  simp [showOID, Spec.intercalate, showDec]
+
+/-- `ATTRIBUTE x 1 string encrypt=a` -/
+example : (parseText Cfg.repaired false (textOfLines {} [] ++ ({} : LineLayout).content [kwATTRIBUTE, [120], showOID [1],
+      typeToken [] { name := [120], oid := [1], typ := .string }, Spec.intercalate 44 ([] ++ (kwEncrypt ++ [97]) :: [])] ++ 10 :: [])).1
+    = some (.decl .invalidAttributeEncryptType [] 1) :=
+  bad_encrypt_value Cfg.repaired false {} [] {} { name := [120], oid := [1], typ := .string } [97] [] []
+    (goodPrefix_nil _) (by decide) (by decide) (by decide) (by decide) (by rw [showOID_one]; decide) (by decide)
+    (non_numeric_is_no_int32 _ (by decide))
+
+/-- `encrypt=2147483648` is out of range, `encrypt=-2147483648` is not -/
+example : (∀ n, ¬ Int32Lit (showDec 2147483648) n) ∧ Int32Lit (45 :: showDec 2147483648) (-2147483648) :=
+  ⟨(out_of_range_is_no_int32 _).1 (by decide), by
+    have := int32Lit_showInt (-2147483648) (by decide)
+    simpa [showInt] using this⟩
+
+/-- `ATTRIBUTE x 1 octets[16` (no bracket) and `ATTRIBUTE x 1 OCTETS[1x]` (non-numeric size) -/
+example : (parseText Cfg.repaired false (textOfLines {} [] ++ ({} : LineLayout).content ([kwATTRIBUTE, [120], showOID [1],
+      applyCase [] kwOctetsBr ++ [49, 54]] ++ (none : Option Bytes).toList) ++ 10 :: [])).1
+    = some (.decl .unknownAttributeType [] 1) :=
+  malformed_octets_size Cfg.repaired false {} [] {} [120] [49, 54] [] [1] none (goodPrefix_nil _) (by decide) (by decide)
+    (by decide) (by simp) ⟨by decide, by decide⟩ (by rw [showOID_one]; decide) (missing_bracket_is_malformed _ (by decide))
+
+example : (parseText Cfg.repaired false (textOfLines {} [] ++ ({ caseMask := [true, true, true, true, true, true] } : LineLayout).content
+      ([kwATTRIBUTE, [120], showOID [1], applyCase [true, true, true, true, true, true] kwOctetsBr ++ ([49, 120] ++ [93])]
+        ++ (none : Option Bytes).toList) ++ 10 :: [])).1
+    = some (.decl .unknownAttributeType [] 1) :=
+  malformed_octets_size Cfg.repaired false {} [] { caseMask := [true, true, true, true, true, true] } [120] ([49, 120] ++ [93]) [] [1]
+    none (goodPrefix_nil _) (by decide) (by decide) (by decide) (by simp) ⟨by decide, by decide⟩ (by rw [showOID_one]; decide)
+    (bad_size_is_malformed [49, 120] (non_numeric_is_no_int32 _ (by decide)))
+
+/-- `VALUE a b` (two arguments), `BEGIN-VENDOR` (none), `attribute x 1 string` (keywords are case-sensitive) -/
+example : (parseText Cfg.repaired false (textOfLines {} [] ++ ({} : LineLayout).content (kwVALUE :: [[97], [98]]) ++ 10 :: [])).1
+    = some (.decl .unknownLine [] 1) :=
+  value_wrong_field_count Cfg.repaired false {} [] {} [[97], [98]] [] (goodPrefix_nil _) (by decide) (by decide) (by decide) (by decide)
+example : (parseText Cfg.repaired false (textOfLines {} [] ++ ({} : LineLayout).content (kwBEGIN :: []) ++ 10 :: [])).1
+    = some (.decl .unknownLine [] 1) :=
+  begin_vendor_wrong_field_count Cfg.repaired false {} [] {} [] [] (goodPrefix_nil _) (by decide) (by decide) (by decide) (by decide)
+example : (parseText Cfg.repaired false (textOfLines {} [] ++ ({} : LineLayout).content (bs "attribute" :: [[120], [49], nmString]) ++ 10 :: [])).1
+    = some (.decl .unknownLine [] 1) :=
+  unknown_keyword Cfg.repaired false {} [] {} (bs "attribute") [[120], [49], nmString] [] (goodPrefix_nil _) (by decide) (by decide)
+    (by decide) (by decide) (by decide)
 
 end RV.C16
